@@ -866,7 +866,10 @@ func (txn *KVTxn) Commit(ctx context.Context) error {
 	}
 	if err != nil {
 		if txn.IsPessimistic() {
-			txn.asyncPessimisticRollback(ctx, committer.mutations.GetKeys(), txn.committer.forUpdateTS)
+			// initKeysAndMutations may have failed in the middle of the buffer, so committer.mutations can be
+			// incomplete. Roll back every key the transaction has locked.
+			lockedKeys := txn.collectLockedKeys()
+			txn.asyncPessimisticRollback(ctx, lockedKeys, txn.committer.forUpdateTS)
 		}
 		return err
 	}
